@@ -141,6 +141,9 @@ def ref_leaf(name, v):
         return _enum_like([(m.value, m) for m in grammar.EnumStrMix], v if type(v) is not grammar.EnumStrMix else v.value, 'enum')
     if name == 'enum_intmix':
         return _enum_like([(m.value, m) for m in grammar.EnumIntMix], v, 'enum')
+    if name == 'enum_num':
+        # (an int is also what the float-valued member's own type accepts: 2 would be 2.0 - no member; 1 is A)
+        return _enum_like([(m.value, m) for m in grammar.EnumNum], v, 'enum')
     if name == 'enum_mixed':
         return _enum_like([(m.value, m) for m in grammar.EnumMixed], v, 'enum')
     if name == 'lit_str':
@@ -481,7 +484,7 @@ LEAF_MEMBERS: t.Dict[str, t.List[t.Any]] = {
     'pattern': ['a+b', ''], 'pattern_bytes': [b'a+'],
     'purepath': ['a/b'], 'pureposixpath': ['/a/b'], 'path': ['a/b'], 'pathlike': ['a/b'],
     'any': [1, 'a', [1, 'x'], {'a': [1]}, None],
-    'enum_int': [1, 2], 'enum_str': ['x', 'y'], 'enum_mixed': [1, 's', None], 'enum_strmix': ['red', 'blue'], 'enum_intmix': [1, 2],
+    'enum_int': [1, 2], 'enum_str': ['x', 'y'], 'enum_mixed': [1, 's', None], 'enum_strmix': ['red', 'blue'], 'enum_intmix': [1, 2], 'enum_num': [2.5, 1],
     'lit_str': ['a', 'b'], 'lit_mixed': [1, 'a', None], 'lit_v1': ['v1'], 'lit_v2': ['v2'], 'lit_1': [1], 'lit_2': [2],
     'sub_str': ['abc'], 'sub_int': [5], 'sub_float': [2.5, 2],
     'sub_list': [[1, 'a']], 'sub_dict': [{'a': 1}],
@@ -749,7 +752,7 @@ def check_serial(ast, x, d, path='$') -> t.Optional[str]:
             want = x.isoformat()
         elif ast in ('pattern', 'pattern_bytes'):
             want = x.pattern
-        elif ast in ('enum_int', 'enum_str', 'enum_mixed', 'enum_strmix', 'enum_intmix'):
+        elif ast in ('enum_int', 'enum_str', 'enum_mixed', 'enum_strmix', 'enum_intmix', 'enum_num'):
             want = x.value
             if ast == 'enum_intmix':
                 want = int(want)
